@@ -28,6 +28,7 @@ type LoopContract struct {
 	Unroll     int // > 0: bounded unrolling instead of an invariant (labelled bounded)
 	Heads      []LoopGhost // "loop k ghost v := e": ghost snapshot taken at the head of every iteration
 	Steps      []Clause    // "loop k step label: e": holds at every back edge (one whole iteration after the head snapshot)
+	Splits     []Clause    // "loop k split e": proof hint, a case distinction (at the loop head) offered to the cube refinement; no logical content
 }
 
 type LoopGhost struct {
@@ -622,7 +623,7 @@ func (cs *ContractSet) loadFile(path, repoDir string) error {
 				}
 				cur.Ghost = append(cur.Ghost, GhostUpdate{Var: m[1], Expr: ex, Text: m[2]})
 			case "loop":
-				m := regexp.MustCompile(`^(\d+)\s+(invariant|decreases|unroll|ghost|step)\s+(.*)$`).FindStringSubmatch(rest)
+				m := regexp.MustCompile(`^(\d+)\s+(invariant|decreases|unroll|ghost|step|split)\s+(.*)$`).FindStringSubmatch(rest)
 				if m == nil {
 					return fmt.Errorf("%s:%d: bad loop clause %q", path, lineNo, rest)
 				}
@@ -662,6 +663,10 @@ func (cs *ContractSet) loadFile(path, repoDir string) error {
 				c, err := parseClause(m[3], path, lineNo)
 				if err != nil {
 					return err
+				}
+				if m[2] == "split" {
+					lc.Splits = append(lc.Splits, c)
+					continue
 				}
 				if m[2] == "step" {
 					if c.Label == "" {
